@@ -531,7 +531,7 @@ class Stats:
     FIELDS = ('paths', 'completed_paths', 'aborted_paths', 'queries', 'solver_s', 'unknown_feasibility',
               'obligations', 'discharged', 'refuted', 'inconclusive', 'vacuity_witnesses',
               'canaries', 'canaries_refuted', 'forks', 'max_depth', 'cache_hits', 'trivial_claims',
-              'cvc5_checked', 'cvc5_agree', 'cvc5_unknown', 'cvc5_disagree', 'cvc5_s')
+              'cvc5_checked', 'cvc5_agree', 'cvc5_unknown', 'cvc5_disagree', 'cvc5_s', 'unknown_retries')
 
     def __init__(self):
         for f in self.FIELDS:
@@ -642,18 +642,26 @@ class SymEnv:
         return r
 
     def _check_uncached(self, *extra):
-        s = z3.Solver()
-        s.set("timeout", self.timeout_ms)
-        if self.seed:
-            s.set("random_seed", self.seed % (2 ** 31))
-        for c in self.pc:
-            s.add(c)
-        for c in extra:
-            s.add(c)
-        t0 = time.perf_counter()
-        r = s.check()
-        self.stats.solver_s += time.perf_counter() - t0
-        self.stats.queries += 1
+        """one z3 query; an `unknown` (time-out of the nonlinear procedure) is retried with other solver seeds before it is
+        accepted as inconclusive, so that verdicts do not depend on VERIF_SEED or on machine load"""
+        seeds = [self.seed % (2 ** 31) if self.seed else 0] + [s_ for s_ in (0, 1, 17) if s_ != (self.seed % (2 ** 31) if self.seed else 0)]
+        r, s = z3.unknown, None
+        for attempt, sd in enumerate(seeds[:3]):
+            s = z3.Solver()
+            s.set("timeout", self.timeout_ms)
+            if sd:
+                s.set("random_seed", sd)
+            for c in self.pc:
+                s.add(c)
+            for c in extra:
+                s.add(c)
+            t0 = time.perf_counter()
+            r = s.check()
+            self.stats.solver_s += time.perf_counter() - t0
+            self.stats.queries += 1
+            if r != z3.unknown:
+                break
+            self.stats.unknown_retries += 1
         return r, s
 
     def _feasible(self, cond):
